@@ -306,8 +306,7 @@ class Key(AbstractKey):
         :type name: :any:`NonStrictName`
         """
         name = Name.to_bytes(name)
-        self.pib.conn.execute('UPDATE certificates SET is_default=1 WHERE certificate_name=?', (name,))
-        self.pib.conn.commit()
+        self.pib._apply(('UPDATE certificates SET is_default=1 WHERE certificate_name=?', (name,)))
 
     def default_cert(self) -> Certificate:
         """
@@ -414,8 +413,7 @@ class Identity(AbstractIdentity):
         :type name: :any:`NonStrictName`
         """
         name = Name.to_bytes(name)
-        self.pib.conn.execute('UPDATE keys SET is_default=1 WHERE key_name=?', (name,))
-        self.pib.conn.commit()
+        self.pib._apply(('UPDATE keys SET is_default=1 WHERE key_name=?', (name,)))
 
     def default_key(self) -> Key:
         """
@@ -522,8 +520,7 @@ class KeychainSqlite3(Keychain):
         :type name: :any:`NonStrictName`
         """
         name = Name.to_bytes(name)
-        self.conn.execute('UPDATE identities SET is_default=1 WHERE identity=?', (name,))
-        self.conn.commit()
+        self._apply(('UPDATE identities SET is_default=1 WHERE identity=?', (name,)))
 
     def default_identity(self) -> Identity:
         """
@@ -550,8 +547,7 @@ class KeychainSqlite3(Keychain):
         """
         name = Name.to_bytes(name)
         if name not in self:
-            self.conn.execute('INSERT INTO identities (identity) VALUES (?)', (name,))
-            self.conn.commit()
+            self._apply(('INSERT INTO identities (identity) VALUES (?)', (name,)))
         else:
             raise KeyError(f'Identity {Name.to_str(name)} already exists')
         if not self.has_default_identity():
@@ -580,6 +576,17 @@ class KeychainSqlite3(Keychain):
             self.set_default_identity(name)
         return self[name]
 
+    def _apply(self, *statements):
+        # One transaction: either every statement is committed or - when a step fails - none of them stays pending
+        # on the connection, where the next successful operation would commit it
+        try:
+            for sql, args in statements:
+                self.conn.execute(sql, args)
+            self.conn.commit()
+        except BaseException:
+            self.conn.rollback()
+            raise
+
     def __del__(self):
         if self.conn is not None:
             self.shutdown()
@@ -601,8 +608,7 @@ class KeychainSqlite3(Keychain):
         name = Name.to_bytes(name)
         for key_name in self[name]:
             self.del_key(key_name)
-        self.conn.execute('DELETE FROM identities WHERE identity=?', (name,))
-        self.conn.commit()
+        self._apply(('DELETE FROM identities WHERE identity=?', (name,)))
         self._signer_cache = {}
 
     def get_signer(self, sign_args: dict[str, Any]):
@@ -665,9 +671,8 @@ class KeychainSqlite3(Keychain):
         # Remove the private key first: if that fails, nothing has changed and the call can be repeated;
         # the other way round a failure would leave a private key that no entry refers to any more
         self.tpm.delete_key(formal_name)
-        self.conn.execute('DELETE FROM certificates WHERE key_id=?', (key.row_id,))
-        self.conn.execute('DELETE FROM keys WHERE key_name=?', (name,))
-        self.conn.commit()
+        self._apply(('DELETE FROM certificates WHERE key_id=?', (key.row_id,)),
+                    ('DELETE FROM keys WHERE key_name=?', (name,)))
         self._signer_cache = {}
 
     def del_cert(self, name: NonStrictName):
@@ -678,8 +683,7 @@ class KeychainSqlite3(Keychain):
         :type name: :any:`NonStrictName`
         """
         name = Name.to_bytes(name)
-        self.conn.execute('DELETE FROM certificates WHERE certificate_name=?', (name,))
-        self.conn.commit()
+        self._apply(('DELETE FROM certificates WHERE certificate_name=?', (name,)))
         self._signer_cache = {}
 
     def new_key(self, id_name: NonStrictName, key_type: str = 'ec', **kwargs) -> Key:
@@ -713,12 +717,11 @@ class KeychainSqlite3(Keychain):
         cert_name, cert_data = self_sign(key_name, pub_key, signer)
         key_name = Name.to_bytes(key_name)
         cert_name = Name.to_bytes(cert_name)
-        self.conn.execute('INSERT INTO keys (identity_id, key_name, key_bits) VALUES (?, ?, ?)',
-                          (identity.row_id, key_name, pub_key))
-        self.conn.execute('INSERT INTO certificates (key_id, certificate_name, certificate_data)'
-                          'VALUES ((SELECT id FROM keys WHERE key_name=?), ?, ?)',
-                          (key_name, cert_name, bytes(cert_data)))
-        self.conn.commit()
+        self._apply(('INSERT INTO keys (identity_id, key_name, key_bits) VALUES (?, ?, ?)',
+                     (identity.row_id, key_name, pub_key)),
+                    ('INSERT INTO certificates (key_id, certificate_name, certificate_data)'
+                     'VALUES ((SELECT id FROM keys WHERE key_name=?), ?, ?)',
+                     (key_name, cert_name, bytes(cert_data))))
 
         if not identity.has_default_key():
             identity.set_default_key(key_name)
@@ -727,7 +730,6 @@ class KeychainSqlite3(Keychain):
     def import_cert(self, key_name: NonStrictName, cert_name: NonStrictName, cert_data: BinaryStr):
         key_name = Name.to_bytes(key_name)
         cert_name = Name.to_bytes(cert_name)
-        self.conn.execute('INSERT INTO certificates (key_id, certificate_name, certificate_data)'
-                          'VALUES ((SELECT id FROM keys WHERE key_name=?), ?, ?)',
-                          (key_name, cert_name, bytes(cert_data)))
-        self.conn.commit()
+        self._apply(('INSERT INTO certificates (key_id, certificate_name, certificate_data)'
+                     'VALUES ((SELECT id FROM keys WHERE key_name=?), ?, ?)',
+                     (key_name, cert_name, bytes(cert_data))))
